@@ -137,7 +137,8 @@ theorem rightSide_stable_ph (t : ExternalTask) (hbyp : t.bypassTightness = false
     (∀ a ∈ rightSide t ΓR, sat J a.formula ρ) ↔
       Stable (t.program.substSym (phNu t.phMap J.fc)) t.userGuide.inputs
         (restrictTo (ext t.program.preds t.userGuide.inputs)
-          (renamedInterp (t.specPrivate.filter (· ∈ t.progPrivate)) J.pred)) J.fc := by
+          (renamedInterp (t.specPrivate.filter (· ∈ t.progPrivate)) J.pred)) J.fc ∧
+      OutputsEmpty t t.program (renamedInterp (t.specPrivate.filter (· ∈ t.progPrivate)) J.pred) := by
   have hperr : programError t t.program t.progPrivate = none := by
     cases hP : programError t t.program t.progPrivate with
     | none => rfl
@@ -181,13 +182,15 @@ theorem external_refutes_spec_ph (t : ExternalTask) (S : Specification) (hspec :
           (∀ a ∈ rightSide t ΓR, a.role = .assumption → sat J a.formula ρ) ∧
           (((t.direction = .universal ∨ t.direction = .forward) ∧
               (∀ a ∈ S, lFwdPrem a = true → sat J (a.formula.replacePlaceholders t.phMap) ρ) ∧
-              ¬ Stable (t.program.substSym (phNu t.phMap J.fc)) t.userGuide.inputs
-                (restrictTo (ext t.program.preds t.userGuide.inputs)
-                  (renamedInterp (t.specPrivate.filter (· ∈ t.progPrivate)) J.pred)) J.fc) ∨
-           ((t.direction = .universal ∨ t.direction = .backward) ∧
-              Stable (t.program.substSym (phNu t.phMap J.fc)) t.userGuide.inputs
+              ¬ (Stable (t.program.substSym (phNu t.phMap J.fc)) t.userGuide.inputs
                 (restrictTo (ext t.program.preds t.userGuide.inputs)
                   (renamedInterp (t.specPrivate.filter (· ∈ t.progPrivate)) J.pred)) J.fc ∧
+                OutputsEmpty t t.program (renamedInterp (t.specPrivate.filter (· ∈ t.progPrivate)) J.pred))) ∨
+           ((t.direction = .universal ∨ t.direction = .backward) ∧
+              (Stable (t.program.substSym (phNu t.phMap J.fc)) t.userGuide.inputs
+                (restrictTo (ext t.program.preds t.userGuide.inputs)
+                  (renamedInterp (t.specPrivate.filter (· ∈ t.progPrivate)) J.pred)) J.fc ∧
+                OutputsEmpty t t.program (renamedInterp (t.specPrivate.filter (· ∈ t.progPrivate)) J.pred)) ∧
               ∃ a ∈ S, lBwdConc a = true ∧ ¬ sat J (a.formula.replacePlaceholders t.phMap) ρ)))) := by
   obtain ⟨hpre, left, ΓR, _, hleft, hR, hps⟩ := externalProblems_ph t hpo fuel ps h
   simp only [hspec] at hleft
@@ -226,19 +229,21 @@ theorem external_refutes_programs_ph (t : ExternalTask) (PL : Program) (hspec : 
         ((∃ P ∈ ps, Refutes J ρ P) ↔
           (∀ a ∈ t.userGuide.formulas, a.role = .assumption → sat J (a.formula.replacePlaceholders t.phMap) ρ) ∧
           (((t.direction = .universal ∨ t.direction = .forward) ∧
-              Stable (PL.substSym (phNu t.phMap J.fc)) t.userGuide.inputs
-                (restrictTo (ext PL.preds t.userGuide.inputs) J.pred) J.fc ∧
+              (Stable (PL.substSym (phNu t.phMap J.fc)) t.userGuide.inputs
+                (restrictTo (ext PL.preds t.userGuide.inputs) J.pred) J.fc ∧ OutputsEmpty t PL J.pred) ∧
               (∀ a ∈ rightSide t ΓR, a.role = .assumption → sat J a.formula ρ) ∧
-              ¬ Stable (t.program.substSym (phNu t.phMap J.fc)) t.userGuide.inputs
-                (restrictTo (ext t.program.preds t.userGuide.inputs)
-                  (renamedInterp (t.specPrivate.filter (· ∈ t.progPrivate)) J.pred)) J.fc) ∨
-           ((t.direction = .universal ∨ t.direction = .backward) ∧
-              Stable (t.program.substSym (phNu t.phMap J.fc)) t.userGuide.inputs
+              ¬ (Stable (t.program.substSym (phNu t.phMap J.fc)) t.userGuide.inputs
                 (restrictTo (ext t.program.preds t.userGuide.inputs)
                   (renamedInterp (t.specPrivate.filter (· ∈ t.progPrivate)) J.pred)) J.fc ∧
+                OutputsEmpty t t.program (renamedInterp (t.specPrivate.filter (· ∈ t.progPrivate)) J.pred))) ∨
+           ((t.direction = .universal ∨ t.direction = .backward) ∧
+              (Stable (t.program.substSym (phNu t.phMap J.fc)) t.userGuide.inputs
+                (restrictTo (ext t.program.preds t.userGuide.inputs)
+                  (renamedInterp (t.specPrivate.filter (· ∈ t.progPrivate)) J.pred)) J.fc ∧
+                OutputsEmpty t t.program (renamedInterp (t.specPrivate.filter (· ∈ t.progPrivate)) J.pred)) ∧
               (∀ a ∈ leftSide t ΓL, a.role = .assumption → sat J a.formula ρ) ∧
-              ¬ Stable (PL.substSym (phNu t.phMap J.fc)) t.userGuide.inputs
-                (restrictTo (ext PL.preds t.userGuide.inputs) J.pred) J.fc)))) := by
+              ¬ (Stable (PL.substSym (phNu t.phMap J.fc)) t.userGuide.inputs
+                (restrictTo (ext PL.preds t.userGuide.inputs) J.pred) J.fc ∧ OutputsEmpty t PL J.pred))))) := by
   obtain ⟨hpre, left, ΓR, _, hleft, hR, hps⟩ := externalProblems_ph t hpo fuel ps h
   simp only [hspec] at hleft
   obtain ⟨ΓL, hL, hleft⟩ := hleft
@@ -260,7 +265,7 @@ theorem external_refutes_programs_ph (t : ExternalTask) (PL : Program) (hspec : 
   have huL : UnivSA (controlTranslate t.userGuide.publicPreds ΓL) := fun a ha => ((controlTranslate_spec _ ΓL).1 a ha).2
   have hStL : (∀ a ∈ controlTranslate t.userGuide.publicPreds ΓL, sat J a.formula ρ) ↔
       Stable (PL.substSym (phNu t.phMap J.fc)) t.userGuide.inputs
-        (restrictTo (ext PL.preds t.userGuide.inputs) J.pred) J.fc := by
+        (restrictTo (ext PL.preds t.userGuide.inputs) J.pred) J.fc ∧ OutputsEmpty t PL J.pred := by
     rw [← hst, ← hsemL ρ]
     constructor
     · intro hh F hF
@@ -310,5 +315,42 @@ theorem external_refutes_programs_ph (t : ExternalTask) (PL : Program) (hspec : 
   · rintro ⟨hu, ⟨hd, ⟨hla, hls⟩, hra, hn⟩ | ⟨hd, hr, hla, hn⟩⟩
     · exact ⟨hu, hla, hra, Or.inl ⟨hd, hls, hn⟩⟩
     · exact ⟨hu, hla, hr.1, Or.inr ⟨hd, hr, fun hls => hn ⟨hla, hls⟩⟩⟩
+
+/-! ## without placeholders -/
+
+theorem Term.substSym_id : ∀ t : Term, t.substSym (fun s => .sym s) = t := by
+  intro t
+  induction t with
+  | pre p => cases p <;> rfl
+  | var x => rfl
+  | neg t ih => simp only [Term.substSym, ih]
+  | bin op l r ihl ihr => simp only [Term.substSym, ihl, ihr]
+
+theorem Program.substSym_id (p : Program) : p.substSym (fun s => .sym s) = p := by
+  have hargs : ∀ l : List Term, l.map (Term.substSym fun s => .sym s) = l := by
+    intro l
+    conv => rhs; rw [← List.map_id l]
+    exact List.map_congr_left fun t _ => Term.substSym_id t
+  have hatom : ∀ a : Asp.Atom, a.substSym (fun s => .sym s) = a := by
+    intro a; cases a; simp [Asp.Atom.substSym, hargs]
+  unfold Asp.Program.substSym
+  conv => rhs; rw [← List.map_id p]
+  apply List.map_congr_left
+  intro r _
+  obtain ⟨h, b⟩ := r
+  have hb : b.map (BodyAtom.substSym fun s => .sym s) = b := by
+    conv => rhs; rw [← List.map_id b]
+    apply List.map_congr_left
+    intro f _
+    cases f with
+    | lit l => cases l; simp [BodyAtom.substSym, hatom]
+    | cmp rel l r => simp [BodyAtom.substSym, Term.substSym_id]
+  cases h <;> simp [Asp.Rule.substSym, Asp.Head.substSym, hatom, hb]
+
+theorem phNu_nil (fc : FcI) : phNu [] fc = fun s => .sym s := rfl
+
+theorem phMap_nil (t : ExternalTask) (hph : t.userGuide.placeholders = []) : t.phMap = [] := by
+  unfold ExternalTask.phMap
+  rw [hph]; rfl
 
 end Anthem
